@@ -812,6 +812,15 @@ func (b *BlockWise[C]) processReceivedMessage(w *responsewriter.ResponseWriter[C
 		return fmt.Errorf("cannot get payload: %w", err)
 	}
 	off := num * szx.Size()
+	if num == 0 && payloadSize > 0 {
+		// Block 0 starts a transfer. Whatever was collected before under this token belongs to a transfer
+		// the peer has abandoned (or is a retransmission of block 0 itself): start over instead of
+		// appending later blocks to the stale head.
+		if errT := payloadFile.Truncate(0); errT != nil {
+			return fmt.Errorf("cannot truncate cached request: %w", errT)
+		}
+		payloadSize = 0
+	}
 	if off == payloadSize { //nolint:nestif
 		payloadSize, err = copyToPayloadFromOffset(r, payloadFile, off)
 		if err != nil {
